@@ -722,6 +722,14 @@ class C13(Property):
     def flags_hit(self, case, replies):
         return [KNOWN_TRUNCATION] if case.get('trunc') else []
 
+    def nontrivial_obs(self, case, obs):
+        # a case with both accepted and rejected outputs
+        if not isinstance(obs, dict):
+            return None
+        accepted = any(isinstance(o, dict) and g is True for o, g in zip(obs['out'], obs['gate']))
+        rejected = any(o == 'reject' or g is False for o, g in zip(obs['out'], obs['gate']))
+        return json.dumps(case, sort_keys=True) if accepted and rejected else None
+
     def neighbours(self, case, rng):
         return [{'kind': 'norm', 'dt': case['dt'], 'inputs': inputs_for(rng, case['dt'], 'quick')[:40]} for _ in range(5)]
 
